@@ -96,7 +96,8 @@ def check_known(kf: dict, r: dict, verifier) -> tuple[bool, str]:
             wc = verifier.reg.witness_classes[excl]
             res2, _ = verifier.verify_function(r["func"], extra_requires=[lambda c: wc(c, False)])
             _kf_cache[ck] = {x.label + "|" + x.path: x.status for x in res2}
-        st = _kf_cache[ck].get(r["label"] + "|" + r["path"])
+        # a path that no longer exists with the witness class excluded is infeasible outside the class: covered
+        st = _kf_cache[ck].get(r["label"] + "|" + r["path"], PROVED if _kf_cache[ck] else None)
         if st != PROVED:
             return False, f"known finding {key}: with its witness class ({excl}) excluded the obligation is still not discharged ({st}): a different failure"
     return True, ""
